@@ -11,6 +11,13 @@ import ClipperVerif.Driver.C07
 import ClipperVerif.Driver.OffsetFrame
 import ClipperVerif.Driver.C17
 import ClipperVerif.Driver.C20
+import ClipperVerif.Driver.C15
+import ClipperVerif.Driver.C09
+import ClipperVerif.Driver.C08
+import ClipperVerif.Driver.C19
+import ClipperVerif.Driver.C16
+import ClipperVerif.Driver.C03
+import ClipperVerif.Driver.C04
 namespace Clipper.Driver
 open Clipper.Proto
 
@@ -27,10 +34,35 @@ def handlers : List (String → Option (P String)) := [
   C07.handle,
   OffsetFrame.handle,
   C17.handle,
-  C20.handle
+  C20.handle,
+  C15.handle,
+  C09.handle,
+  C08.handle,
+  C19.handle,
+  C16.handle,
+  C03.handle,
+  C04.handle
 ]
 
-def dispatch (cmd : String) : Option (P String) :=
+def dispatch1 (cmd : String) : Option (P String) :=
   handlers.findSome? (fun h => h cmd)
+
+/-- `IFGP closedA closedB open <command …>` : run the inner command only if the closed paths `closedA ++ closedB`
+together with the open polylines are in general position (C01's premise, exact); otherwise answer `ok notgp …`. -/
+def ifGp : P String := do
+  let a ← paths; let b ← paths; let o ← paths
+  if let some why := Region.notGeneralPositionG (a ++ b) o then
+    set ([] : Toks)
+    return s!"ok notgp {why}"
+  match (← get) with
+  | [] => throw "IFGP without inner command"
+  | cmd :: rest =>
+    set rest
+    match dispatch1 cmd with
+    | some p => p
+    | none => throw s!"unknown inner command {cmd}"
+
+def dispatch (cmd : String) : Option (P String) :=
+  if cmd = "IFGP" then some ifGp else dispatch1 cmd
 
 end Clipper.Driver
